@@ -255,3 +255,16 @@ Theorem C02_src_get_url_after_anchor_is_model : forall (url h : str) (a : nat),
   Struct_Matchers_Proofs.interp_get_url_after_anchor url h a = get_url_after_anchor url h a.
 Proof. exact Struct_Matchers_Proofs.interp_get_url_after_anchor_is_model. Qed.
 Print Assumptions C02_src_get_url_after_anchor_is_model.
+
+(* the regex manager (Generated.RegexMgrGen): the mask flags reach compile_regex as the model says,
+   and a discarded regex is rebuilt by the expression that builds a new one *)
+Theorem C02_src_regex_manager_matches_is_model :
+  forall (re_ok : str -> bool) (re_match : str -> str -> bool) (sh : shape) (fs : list str) (s : str),
+  Struct_Matchers_Proofs.interp_regex_manager_matches re_ok re_match sh fs s =
+  Some (regex_manager_matches re_ok re_match sh fs s).
+Proof. exact Struct_Matchers_Proofs.interp_regex_manager_matches_is_model. Qed.
+Print Assumptions C02_src_regex_manager_matches_is_model.
+
+Theorem C02_src_recreate_is_create : RegexMgrGen.recreate_expr = RegexMgrGen.create_expr.
+Proof. exact Struct_Matchers_Proofs.recreate_is_create. Qed.
+Print Assumptions C02_src_recreate_is_create.
